@@ -11,6 +11,10 @@
 #include <map>
 #include <unordered_map>
 
+#ifndef VERIF_TMP_ROOT
+#define VERIF_TMP_ROOT "/verif/build"
+#endif
+
 namespace mon
 {
    using verif::V;
@@ -486,6 +490,16 @@ namespace mon
 
    int next_state_serial() noexcept { return ++R.state_serials; }
 
+   namespace
+   {
+      std::vector< bact > g_blog;
+   }
+   void on_buf_action( int vid, int kind, std::size_t byte, std::size_t size, std::size_t line, std::size_t column )
+   {
+      if( g_blog.size() < 100000 ) g_blog.push_back( { vid, kind, byte, size, line, column } );
+   }
+   bool on_buf_veto( int vid, std::size_t byte, std::size_t size ) { return ref::veto_pred( vid, byte, byte + size, R.g ? R.g->salt : 0 ); }
+
    void on_state( int what, int type, int serial, const char* cursor, int outer_serial ) noexcept
    {
       cell( what == 0 ? "state:ctor" : what == 1 ? "state:success" : "state:dtor" );
@@ -660,8 +674,9 @@ namespace mon
          return L;
       }
 
-      void flush_viols( const std::string& input )
+      void flush_viols( const std::string& input_full )
       {
+         const std::string input = input_full.size() > 120 ? input_full.substr( 0, 100 ) + "...(" + std::to_string( input_full.size() ) + " bytes)" : input_full;
          for( const auto& p : R.viols ) {
             std::string rep = "{\"grammar\":\"" + verif::jesc( R.g->text ) + "\",\"gname\":\"" + R.g->name + "\",\"profile\":\"" + R.g->profile + "\",\"cell\":\"" + verif::jesc( R.g->cell ) + "\",\"config\":\"" + R.cfg->name + "\",\"variant\":" + std::to_string( R.cfg->variant ) + ",\"lazy\":" + ( R.cfg->lazy ? "true" : "false" ) + ",\"eol\":" + std::to_string( R.cfg->eolpol ) + ",\"input\":\"" + verif::jesc( verif::show( input ) ) + "\"}";
             V.violation( p.prop, p.key, p.what + "  [grammar " + R.g->text + "; input \"" + verif::show( input ) + "\"; config " + R.cfg->name + "/v" + std::to_string( R.cfg->variant ) + ( R.cfg->lazy ? "/lazy" : "/eager" ) + "/eol" + std::to_string( R.cfg->eolpol ) + "]", rep );
@@ -759,6 +774,200 @@ namespace mon
                   viol( "C06", std::string( "C06|tree-node-position|" ) + ( cfg.lazy ? "lazy" : "eager" ), "node " + tmpl( t.type ) + " reports begin (" + std::to_string( t.bbyte ) + "," + std::to_string( t.bline ) + "," + std::to_string( t.bcol ) + ") for byte offset " + std::to_string( t.bo ) );
             }
          }
+      }
+
+      // ---- C11: one (grammar, input) pair in the "ana" configuration. Returns 1 when the reference found a cycle without
+      //      progress and the fuel-limited real run confirmed it, 2 when the reference found one that the real run did not confirm.
+      int run_cycle_case( const grammar& g, const config& cfg, const std::string& input )
+      {
+         ref::interp I;
+         I.n = g.nodes;
+         I.eolpol = cfg.eolpol;
+         I.in = input;
+         I.fuel = 200000;
+         ref::ctx c0;
+         const ref::outcome ro = I.ev( g.top, 0, input.size(), c0 );
+         if( !( I.loop || ro.st == ref::LOOP ) ) return 0;
+         verif::guarded_buffer gb( input, 0 );
+         R = run_state{};
+         R.g = &g;
+         R.cfg = &cfg;
+         R.base = gb.begin();
+         R.end = gb.end();
+         R.text = std::string_view( input );
+         R.eolch = ( cfg.eolpol == 1 || cfg.eolpol == 4 ) ? '\r' : '\n';
+         R.step_limit = 300000;
+         R.depth_limit = 250;
+         runreq rq{ gb.begin(), gb.end(), 0 };
+         runres rs;
+         g.run( rq, rs );
+         ++V.evaluations;
+         R.viols.clear();   // protocol monitors are not judged on a run that was cut off
+         return rs.st == 3 ? 1 : 2;
+      }
+
+      // ---------------------------------------------------------------- C07: input classes, buffering, chunking
+      struct obs { int st; std::size_t end_byte; std::string what; std::vector< bact > acts; };
+      std::size_t g_need_all = 0;       // max over all require() calls of offset_in_buffer + amount
+      bool g_need_unbounded = false;
+      long g_buffer_reads = 0;
+      bool g_poison_buffers = false;    // only for buffer_input< sched_reader >: library readers write through fread / istream::read
+
+      obs observe( const grammar& g, const runreq& rq )
+      {
+         g_blog.clear();
+         g_need_all = 0;
+         g_need_unbounded = false;
+         g_poison_buffers = ( rq.combo == 2 || rq.combo == 3 );
+         runres rs;
+         g.run( rq, rs );
+         g_poison_buffers = false;
+         ++V.evaluations;
+         obs o;
+         o.st = rs.st;
+         o.end_byte = rs.st == 1 ? rs.end_byte : 0;
+         o.what = rs.st == 2 ? rs.what : std::string();
+         o.acts = g_blog;
+         return o;
+      }
+
+      std::string describe_obs( const obs& o )
+      {
+         std::string s = "(result " + std::to_string( o.st ) + ", consumed " + std::to_string( o.end_byte ) + ", " + std::to_string( o.acts.size() ) + " action calls";
+         if( !o.what.empty() ) s += ", error '" + o.what + "'";
+         return s + ")";
+      }
+
+      bool same_obs( const obs& a, const obs& b, std::string& why )
+      {
+         if( a.st != b.st ) { why = "result"; return false; }
+         if( a.end_byte != b.end_byte ) { why = "consumed"; return false; }
+         if( a.what != b.what ) { why = "error-text"; return false; }
+         if( a.acts.size() != b.acts.size() ) { why = "action-trace-length"; return false; }
+         for( std::size_t i = 0; i < a.acts.size(); ++i ) {
+            const bact &x = a.acts[ i ], &y = b.acts[ i ];
+            if( x.vid != y.vid || x.byte != y.byte || x.size != y.size ) { why = "action-trace-span"; return false; }
+            if( x.line != y.line || x.column != y.column ) { why = "action-trace-position"; return false; }
+         }
+         return true;
+      }
+
+      void install_buf_hooks()
+      {
+         namespace vh = tao::pegtl::internal::verif;
+         vh::hooks.buffer_require = +[]( const void*, std::size_t offset, std::size_t amount, std::size_t /*capacity*/, std::size_t /*occupied*/ ) {
+            if( amount > ( std::size_t( 1 ) << 40 ) ) { g_need_unbounded = true; return; }
+            g_need_all = std::max( g_need_all, offset + amount );
+         };
+         vh::hooks.buffer_window = +[]( const void*, const char* buffer, std::size_t capacity, const char* /*current*/, const char* end ) {
+            // what the reader has not delivered yet must not be looked at
+            if( !g_poison_buffers ) return;
+            VERIF_UNPOISON( buffer, std::size_t( end - buffer ) );
+            if( end < buffer + capacity ) VERIF_POISON( end, std::size_t( buffer + capacity - end ) );
+         };
+         vh::hooks.buffer_read = +[]( const void*, std::size_t, std::size_t ) { ++g_buffer_reads; };
+      }
+
+      std::string g_tmpdir;
+      std::string tmp_path()
+      {
+         if( g_tmpdir.empty() ) {
+            g_tmpdir = std::string( VERIF_TMP_ROOT ) + "/run." + std::to_string( ::getpid() );
+            (void)::system( ( "mkdir -p " + g_tmpdir ).c_str() );
+         }
+         return g_tmpdir + "/in.bin";
+      }
+
+      void run_buf_case( const grammar& g, const config& cfg, const std::string& input, bool& nontrivial )
+      {
+         ref::interp I;
+         I.n = g.nodes;
+         I.eolpol = cfg.eolpol;
+         I.in = input;
+         ref::ctx c0;
+         const ref::outcome ro = I.ev( g.top, 0, input.size(), c0 );
+         if( I.loop || ro.st == ref::LOOP ) { cell( "skipped:reference-loop" ); return; }
+         nontrivial = I.steps > 3;
+         verif::guarded_buffer gb( input, 0 );
+         R = run_state{};
+         R.g = &g;
+         R.cfg = &cfg;
+         R.base = gb.begin();
+         R.end = gb.end();
+         V.set_extra( g.name );
+         const std::string topt = g.cell[ 0 ] ? std::string( g.cell ) : std::string( g.profile );
+         auto check = [ & ]( const obs& base, const obs& o, const std::string& cls ) {
+            std::string why;
+            cell( "class:" + cls );
+            if( !same_obs( base, o, why ) ) viol( "C07", "C07|" + cls + "|differs-from-memory_input|" + why + ( ( cls == "memory_input-lazy" && ( g.features & GF_LAZY_UNSAFE ) ) ? "|grammar-uses-rematch" : "" ), cls + " gives " + describe_obs( o ) + " but memory_input gives " + describe_obs( base ) );
+         };
+         runreq rq{ gb.begin(), gb.end(), 0 };
+         const obs base = observe( g, rq );
+         cell( std::string( "buf:baseline:" ) + ( base.st == 1 ? "success" : base.st == 0 ? "failure" : base.st == 2 ? "parse_error" : "other" ) );
+         if( base.st >= 3 ) { viol( "C07", "C07|baseline-unexpected-outcome", "memory_input run ended with status " + std::to_string( base.st ) ); flush_viols( input ); return; }
+         const bool small_ok = ( g.features & GF_CATCH_ALL ) == 0;
+         auto buffer_family = [ & ]( int combo, std::size_t chunk, const std::string& name ) {
+            runreq b{ gb.begin(), gb.end(), combo };
+            b.maximum = input.size() + 80;
+            b.sched = 0;
+            const obs ample = observe( g, b );
+            const std::size_t need = g_need_all;
+            const bool unbounded = g_need_unbounded;
+            if( unbounded ) {
+               // a require() for more than any buffer can hold (everything): std::overflow_error is the only permitted outcome
+               cell( "class:" + name + "-unbounded-lookahead" );
+               if( ample.st != 8 ) viol( "C07", "C07|" + name + "|no-overflow_error-for-unbounded-lookahead", name + ": the grammar required an unbounded amount but the run gave " + describe_obs( ample ) + " (memory_input: " + describe_obs( base ) + ")" );
+               return;
+            }
+            check( base, ample, name + "-ample" );
+            for( int sched = 1; sched <= 6; ++sched ) {
+               runreq sr = b;
+               sr.sched = sched;
+               const obs so = observe( g, sr );
+               check( base, so, name + "-short-reads" );
+               cell( "sched:" + std::to_string( sched ) );
+            }
+            if( !small_ok || unbounded ) return;
+            const std::size_t hi = std::min< std::size_t >( need + 2, chunk + 48 );
+            for( std::size_t cap = chunk; cap <= hi; ++cap ) {
+               runreq sm = b;
+               sm.maximum = cap - chunk;
+               sm.sched = int( cap % 3 == 0 ? 1 : 0 );
+               const obs o = observe( g, sm );
+               const bool expect_overflow = need > cap;
+               if( expect_overflow ) {
+                  cell( "small-buffer:overflow-expected" );
+                  if( o.st != 8 ) viol( "C07", "C07|" + name + "|no-overflow_error-though-buffer-too-small", name + " with capacity " + std::to_string( cap ) + " but the grammar requires offset+amount = " + std::to_string( need ) + ": got " + describe_obs( o ) + " instead of std::overflow_error" );
+               }
+               else {
+                  cell( "small-buffer:fits" );
+                  if( o.st == 8 ) viol( "C07", "C07|" + name + "|overflow_error-though-buffer-suffices", name + " with capacity " + std::to_string( cap ) + " >= required " + std::to_string( need ) + " threw std::overflow_error" );
+                  else check( base, o, name + "-small" );
+               }
+            }
+         };
+         if( cfg.bufset == 0 ) {
+            runreq l{ gb.begin(), gb.end(), 1 };
+            check( base, observe( g, l ), "memory_input-lazy" );
+            buffer_family( 2, 1, "buffer_input-chunk1" );
+            buffer_family( 3, 3, "buffer_input-chunk3" );
+         }
+         else {
+            buffer_family( 2, 64, "buffer_input-chunk64" );
+            const std::string path = tmp_path();
+            { FILE* f = std::fopen( path.c_str(), "wb" ); if( f ) { if( !input.empty() ) (void)!std::fwrite( input.data(), 1, input.size(), f ); std::fclose( f ); } }
+            static const char* names[] = { "", "", "", "", "string_input", "read_input", "mmap_input", "file_input", "argv_input", "istream_input", "cstream_input" };
+            for( int combo = 4; combo <= 10; ++combo ) {
+               if( combo == 8 && input.find( '\0' ) != std::string::npos ) continue;
+               runreq f{ gb.begin(), gb.end(), combo };
+               f.path = path.c_str();
+               f.maximum = input.size() + 80;
+               const obs fo = observe( g, f );
+               if( combo >= 9 && g_need_unbounded ) { cell( std::string( "class:" ) + names[ combo ] + "-unbounded-lookahead" ); if( fo.st != 8 ) viol( "C07", std::string( "C07|" ) + names[ combo ] + "|no-overflow_error-for-unbounded-lookahead", std::string( names[ combo ] ) + ": unbounded look-ahead but " + describe_obs( fo ) ); continue; }
+               check( base, fo, names[ combo ] );
+            }
+         }
+         flush_viols( input );
       }
 
       // one monitored run and all comparisons with the reference
@@ -929,7 +1138,8 @@ namespace mon
    {
       verif::init( argc, argv );
       install_hooks();
-      const std::size_t cap = V.thorough() ? 20000 : 1500;
+      if( cfg.buf ) install_buf_hooks();
+      const std::size_t cap = cfg.buf ? ( V.thorough() ? 6000 : 1500 ) : ( V.thorough() ? 20000 : 1500 );
       for( std::size_t gi = 0; gi < ng; ++gi ) {
          const grammar& g = gs[ gi ];
          if( ( g.features & GF_PRED_DUP ) && cfg.variant >= 3 && !cfg.plain ) {
@@ -939,6 +1149,37 @@ namespace mon
             continue;
          }
          std::string alpha( g.alphabet, g.nalpha );
+         if( cfg.ana ) {
+            // C11: does the analysis certify a grammar for which some input exhibits a cycle without progress?
+            if( !V.begin_case( "C11", g.profile ) ) continue;
+            ::alarm( 120 );
+            V.set_extra( g.name );
+            const long problems = g.analyze ? g.analyze() : -1;
+            input_enum en;
+            en.alpha = alpha;
+            en.maxlen = pick_len( alpha.size(), V.thorough() ? 1500 : 400 );
+            std::string input, witness, unconfirmed;
+            long loops = 0, notconf = 0, tried = 0;
+            while( en.next( input ) ) {
+               ++tried;
+               const int r = run_cycle_case( g, cfg, input );
+               if( r == 1 ) { if( !loops ) witness = input; ++loops; }
+               if( r == 2 ) { if( !notconf ) unconfirmed = input; ++notconf; }
+               if( loops >= 3 ) break;
+            }
+            R.g = &g;
+            R.cfg = &cfg;
+            const std::string var( std::string( g.cell ).substr( std::string( g.cell ).rfind( ':' ) + 1 ) );
+            if( loops && problems == 0 ) {
+               viol( "C11", "C11|certified-but-loops|" + std::string( g.cell ).substr( 0, std::string( g.cell ).find( ':' ) ), "analyze() reports 0 problems but on input \"" + verif::show( witness ) + "\" the reference finds a cycle without progress and the real parser exceeds " + std::to_string( R.step_limit ) + " rule invocations / nesting " + std::to_string( R.depth_limit ) );
+               flush_viols( witness );
+            }
+            cell( std::string( "cyc:" ) + ( problems == 0 ? "certified" : "flagged" ) + ":" + ( loops ? "loops" : notconf ? "reference-loop-not-confirmed" : "no-loop-found" ) + ":" + var );
+            if( loops ) ++V.nontrivial;
+            cell( "grammars:cyc" );
+            if( gi < 3 ) V.sample( "{\"grammar\":\"" + verif::jesc( g.text ) + "\",\"cell\":\"" + verif::jesc( g.cell ) + "\",\"analyze_problems\":" + std::to_string( problems ) + ",\"loop_witness\":\"" + verif::jesc( verif::show( witness ) ) + "\",\"inputs_tried\":" + std::to_string( tried ) + "}" );
+            continue;
+         }
          input_enum en;
          en.alpha = alpha;
          en.maxlen = pick_len( alpha.size(), cap );
@@ -955,7 +1196,9 @@ namespace mon
                static long rcount;
                if( rcount >= nrandom ) { rcount = 0; break; }
                ++rcount;
-               const std::size_t len = en.maxlen + 1 + rnd.below( 24 );
+               // buffer / file configurations also get inputs around page and chunk boundaries
+               static const std::size_t special[] = { 63, 64, 65, 127, 128, 129, 4095, 4096, 4097, 8192 };
+               const std::size_t len = ( cfg.buf && rcount <= 10 ) ? special[ rcount - 1 ] : en.maxlen + 1 + rnd.below( 24 );
                input.clear();
                for( std::size_t i = 0; i < len; ++i ) input.push_back( alpha[ rnd.below( alpha.size() ) ] );
             }
@@ -963,7 +1206,8 @@ namespace mon
             if( !V.begin_case( "C03", g.profile, input.data(), input.size() ) ) continue;
             ::alarm( 30 );   // wall-clock backstop: its firing is recorded as a hang of this case
             bool nontrivial = false;
-            run_case( g, cfg, input, int( ( n + g.salt ) & 1 ), nontrivial );
+            if( cfg.buf ) run_buf_case( g, cfg, input, nontrivial );
+            else run_case( g, cfg, input, int( ( n + g.salt ) & 1 ), nontrivial );
             if( nontrivial ) ++nt;
          }
          V.nontrivial += nt;
@@ -972,6 +1216,8 @@ namespace mon
          if( gi < 2 ) V.sample( "{\"grammar\":\"" + verif::jesc( g.text ) + "\",\"profile\":\"" + g.profile + "\",\"config\":\"" + cfg.name + "\",\"inputs\":" + std::to_string( n ) + ",\"alphabet\":\"" + verif::jesc( verif::show( alpha ) ) + "\"}" );
       }
       ::alarm( 0 );
+      if( !g_tmpdir.empty() ) (void)::system( ( "rm -rf " + g_tmpdir ).c_str() );
+      cell( "buffer:reader-calls", g_buffer_reads );
       for( const auto& [ k, v ] : g_cells ) V.count( k, v );
       V.finish();
       return 0;
